@@ -203,9 +203,11 @@ def _combo(arg) -> Result:
     ks.update(range(0, n + 10, 7 if deep else 61))
     if not deep and graceful == 25.0:
         ks = {x for x in ks if x % 2 == 0}
+    n_fired = 0
     for k in sorted(ks):
         r = vtime.run(lambda loop, s=sc, g=graceful, kk=k: one_run(s, g, kk), budget=20_000_000)
         res.extra["crash_points_enumerated"] = res.extra.get("crash_points_enumerated", 0) + 1
+        n_fired += int(r.fired is True)
         if r.fired is not True:
             res.dist["handler-not-registered"] += 1
             if r.fired is None and k > n + 5:
@@ -215,6 +217,11 @@ def _combo(arg) -> Result:
         res.note((sc["name"], graceful, k), sample={"scenario": sc["name"], "graceful_s": graceful, "stop_at_callback": k,
                                                    "final": r.final} if len(res.samples) < 1 and k % 17 == 5 else None)
         judge(r, sc, graceful, k, res, f"{sc['name']}/g={graceful}/k={k}")
+    if ks and n_fired == 0:
+        # a worker started with its default signal handling that never has a handler for the stop signal cannot be told to stop
+        res.bad("impl", "the running worker never had a handler registered for the stop signal (default handle_signals): it cannot be "
+                        "told to stop", case={"label": f"{sc['name']}/g={graceful}", "stop_indices_tried": len(ks)},
+                observed="no handler at any of the indices", expected="SIGINT / SIGTERM handled while the worker runs")
     return res
 
 
